@@ -420,13 +420,19 @@ type c17Run struct {
 // stratum is the class suffix of runs generated in one of the strata that
 // reach a known defect (unified = the finding concerns the unified endpoint).
 func (k *c17Run) stratum(unified bool) string {
+	suf := ""
 	if unified && k.sc.MultiRO {
-		return "+multi-ro-stratum"
+		suf += "+multi-ro-stratum"
 	}
-	if !unified && k.sc.LiftAttach {
-		return "+lift-attach-stratum"
+	if k.sc.LiftAttach {
+		// also for mismatches seen on the unified endpoint or after a legitimate
+		// write: a write made through the attached handle inside a transaction
+		// that an earlier read left open on the pooled connection is uncommitted,
+		// holds the file's write lock, and makes the NEXT write that comes through
+		// the log fail with "database is locked" on that node only
+		suf += "+lift-attach-stratum"
 	}
-	return ""
+	return suf
 }
 
 func (k *c17Run) dbPath(n *node.Node) string { return filepath.Join(n.Dir, "db.sqlite") }
@@ -700,7 +706,7 @@ func c17RunFn(c *core.Ctx, raw json.RawMessage) {
 				}
 				return
 			}
-			if !k.compareWithReference(ref, "state-mismatch-after-heal", fmt.Sprintf("after heal (op %d)", oi)) {
+			if !k.compareWithReference(ref, "state-mismatch-after-heal"+k.stratum(false), fmt.Sprintf("after heal (op %d)", oi)) {
 				return
 			}
 			continue
@@ -731,7 +737,7 @@ func c17RunFn(c *core.Ctx, raw json.RawMessage) {
 			if !k.baseline(n) {
 				return
 			}
-			if !k.compareWithReference(ref, "state-mismatch-after-restart", fmt.Sprintf("after restart (op %d)", oi)) {
+			if !k.compareWithReference(ref, "state-mismatch-after-restart"+k.stratum(false), fmt.Sprintf("after restart (op %d)", oi)) {
 				return
 			}
 			continue
@@ -960,7 +966,7 @@ func c17RunFn(c *core.Ctx, raw json.RawMessage) {
 		if op.K == "mixed" || (op.K == "read" && op.Ep == "request") {
 			class = "readonly-statement-modified-database" + k.stratum(true)
 		} else if op.K == "write" {
-			class = "state-mismatch-after-write"
+			class = "state-mismatch-after-write" + k.stratum(false)
 		}
 		if !k.compareWithReference(ref, class, fmt.Sprintf("after op %d (%s %s level=%q on n%d) texts=%q", oi, op.K, op.Ep, op.Level, tgt.Idx, op.Texts)) {
 			return
